@@ -192,6 +192,7 @@ package core
 //@   writes[C12] st.Bs
 //@   ensures total: err == nil && walked != nil && fresh(walked)
 //@   ensures[;profile=pure] strides: forall j int :: 0 <= j && j < len(walked.Strides) ==> walked.Strides[j] != nil
+//@   ensures[;profile=pure] events: forall j int :: 0 <= j && j < len(walked.Strides) ==> walked.Strides[j].Events != nil
 //@   ensures[C05;profile=pure] bound: len(walked.Strides) <= limitOf(c)
 //@   ensures[C05;profile=pure] remaining: (walked.StoppedBecause == Limited || walked.StoppedBecause == BreakpointReached) ==> suffixOf(walked.Remaining, pendings)
 //@   ensures[C05;profile=pure] done: walked.StoppedBecause == Done ==> len(walked.Remaining) == 0 && len(walked.Strides) > 0 && walked.Strides[len(walked.Strides)-1].To == nil
@@ -208,6 +209,7 @@ package core
 //@   loop 0 invariant[C05;profile=pure] queue: suffixOf(pendings, old(pendings))
 //@   loop 0 invariant[C05;profile=pure] offs: len(pendings) > 0 ==> off(pendings) == off(old(pendings)) + len(old(pendings)) - len(pendings)
 //@   loop 0 invariant[C05;profile=pure] nonnil: forall j int :: 0 <= j && j < len(walked.Strides) ==> walked.Strides[j] != nil
+//@   loop 0 invariant[;profile=pure] evs: forall j int :: 0 <= j && j < len(walked.Strides) ==> walked.Strides[j].Events != nil
 //@   loop 0 ghostfn kappa(i) = len(old(pendings)) - len(pendings)
 //@   loop 0 invariant[C05;profile=pure] kfirst: i == 0 ==> len(pendings) == len(old(pendings))
 //@   loop 0 invariant[C05;profile=pure] klast: i > 0 ==> len(old(pendings)) - len(pendings) == kappa(i - 1) + (walked.Strides[i-1].Consumed != nil ? 1 : 0)
@@ -294,3 +296,14 @@ package core
 //@   ensures[C13] none: (syntax == "none" || syntax == "") ==> x == p && err == nil
 //@   ensures[C13] unknownsyntax: syntax != "none" && syntax != "" && syntax != "json" ==> err != nil && x == nil
 //@   ensures[C13] jsonpass: syntax == "json" && !is(p, string) ==> x == p && err == nil
+
+// A Specter hands out a compiled spec (or nil).
+//@ iface core.Specter.Spec(recv) returns (s)
+//@   modifies nothing
+//@   ensures s != nil ==> wfSpec(s)
+//@   ensures is(recv, *Spec) ==> s == as(recv, *Spec)
+
+// (*Spec).Spec is the implementation the last clause above speaks about.
+//@ func (*Spec).Spec returns r
+//@   modifies nothing
+//@   ensures r == s
